@@ -92,7 +92,9 @@ def check(ctx, rep):
         pres = polls[0][1]['d']['l']
         ready_edge = None
         for sb, st in rt.terms('switch'):
-            if any(o.kind == 'rvalue' and o.stmt['rv']['k'] == 'discr' and o.stmt['rv']['a']['l'] == pres for o in origins(rt, st['a'])):
+            if any(o.kind == 'rvalue' and o.stmt['rv']['k'] == 'discr' and path_matches(o.stmt['rv']['a'].get('adt') or '', 'core::task::poll::Poll') and
+                   (o.stmt['rv']['a']['l'] == pres or any(x.kind == 'call' and x.bb == polls[0][0] and not x.suffix for x in origins(rt, o.stmt['rv']['a'])))
+                   for o in origins(rt, st['a'])):
                 for v, b in st['arms']:
                     if v == 0:
                         ready_edge = (sb, b)
@@ -111,6 +113,7 @@ def check(ctx, rep):
         cb = canc[0]
         # Cancelled depends on all three inputs: it must be unreachable when any guarding edge is flipped
         guards = {}
+        guards_direct = False
         for sb, st in rt.terms('switch'):
             for o in origins(rt, st['a']):
                 if o.kind == 'call' and o.bb == wloads[0][0]:
@@ -121,7 +124,11 @@ def check(ctx, rep):
                 if o.kind == 'call' and call_matches(o.term, ['core::cmp::PartialEq::eq', 'core::cmp::PartialEq::ne']) and \
                         'TaskState' in ' '.join(o.term.get('targs') or []):
                     guards['suspended'] = (sb, st)
-            # a direct match on the result enum also counts
+                # a direct match on the result enum also counts (`match state { Suspended if .. => Cancelled, state => state }`)
+                if o.kind == 'rvalue' and o.stmt['rv']['k'] == 'discr' and path_matches(o.stmt['rv']['a'].get('adt') or '', 'crux_core::command::executor::TaskState') \
+                        and 'suspended' not in guards and vidx:
+                    guards['suspended'] = (sb, st)
+                    guards_direct = True
         dep = set()
         for name, (sb, st) in guards.items():
             for s2 in rt.succ(sb):
@@ -139,7 +146,11 @@ def check(ctx, rep):
         if 'woken' in guards:
             e = edge_for(guards['woken'], False)
             polarity['woken==false'] = e is not None and cb not in rt.reachable_ps([0], removed_edges=[e])
-        if 'suspended' in guards:
+        if 'suspended' in guards and guards_direct:
+            sb, st = guards['suspended']
+            tgt_ = next((b for v, b in st['arms'] if v == vidx.get('Suspended')), st['otherwise'])
+            polarity['result==Suspended'] = cb not in rt.reachable_ps([0], removed_edges=[(sb, tgt_)])
+        elif 'suspended' in guards:
             sb, st = guards['suspended']
             eqcall = [o for o in origins(rt, st['a']) if o.kind == 'call']
             is_ne = bool(eqcall) and last_seg(eqcall[0].term['callee']) == 'ne'
